@@ -287,3 +287,15 @@ pub fn hexdigit(nibble: u32, upper: bool) -> u8 {
         b'a' + (n - 10)
     }
 }
+
+/// Length and the first 24 bytes of a string as three little-endian words (zero padded). Loop-free.
+pub fn key3(s: &str) -> (usize, [u64; 3]) {
+    let b = s.as_bytes();
+    let n = b.len();
+    let mut w = [0u64; 3];
+    macro_rules! byte {
+        ($($i:expr),*) => { $( if $i < n { w[$i / 8] |= (b[$i] as u64) << (8 * ($i % 8)); } )* };
+    }
+    byte!(0, 1, 2, 3, 4, 5, 6, 7, 8, 9, 10, 11, 12, 13, 14, 15, 16, 17, 18, 19, 20, 21, 22, 23);
+    (n, w)
+}
